@@ -44,7 +44,9 @@ def queries(tier):
             if q.name not in names:
                 names.add(q.name)
                 q.group = "~" + q.group
-                qs.append(q)
+                # the open finding F7 (non-blocking respondent send refused) is a C07 / C15 matter: its input class is excluded here
+                from props import _cross
+                qs.append(_cross.exclude_nonblock_findings(q))
     # the header capacity guard everything above relies on (the real core/message.c: 64 bytes, append beyond it fails and changes nothing)
     for q in C17.queries(tier):
         if q.name.startswith("api-h_"):
